@@ -94,17 +94,12 @@ impl BigNum {
     /// assert_eq!("-4321", b.to_string());
     /// ```
     pub fn new(n: isize) -> BigNum {
-        if n >= 0 {
-            BigNum {
-                pos: true,
-                val: vec![n as u32],
-            }
-        } else {
-            BigNum {
-                pos: false,
-                val: vec![(-n) as u32],
-            }
+        let m = n.unsigned_abs() as u64;
+        let mut val = vec![m as u32];
+        if m >> 32 != 0 {
+            val.push((m >> 32) as u32);
         }
+        BigNum { pos: n >= 0, val }
     }
 
     /// Makes new `BigNum` from vector
